@@ -357,7 +357,7 @@ func main() {
 	r := cq.NewRNG(seed)
 	s := cases.New("C19", dir, "LW.Corr.C19",
 		"fragment counts: every power of two up to 256, boundary and random others in 1..300; fragment sizes 1..64; redundancy 0..100 sampled; identity-pattern and random data; invalid sizes 0, -1, -2, non-dividing; random erasure patterns (full-rank and rank-deficient) decoded by an independent decoder; every case is non-trivial (distinct = distinct printed case)")
-	s.ShardSize = 12
+	s.ShardSize = 5
 	s.Watchdog(3 * time.Second)
 
 	// ---- corpus: invalid sizes (witnesses of the size-0 / negative-size defect) ----
